@@ -750,17 +750,24 @@ def main(prop, tier, seed):
     try:
         with common.guard(run, "import of the estimators"):
             im = Impl()
+        # (backstop: an exception escaping from the library in any phase is a finding, not a tool failure)
         if prop == "C05":
-            correspondence(run, drv, im, run.rng, 400 if thorough else 60)
-            validity(run, im, run.rng, 1500 if thorough else 150)
-            batches(run, im, run.rng, 120 if thorough else 16)
-            grid_sweep(run, im, run.rng)
+            with common.guard(run, "estimator kernels (correspondence phase)"):
+                correspondence(run, drv, im, run.rng, 400 if thorough else 60)
+            with common.guard(run, "validity phase"):
+                validity(run, im, run.rng, 1500 if thorough else 150)
+            with common.guard(run, "batch phase"):
+                batches(run, im, run.rng, 120 if thorough else 16)
+            with common.guard(run, "grid sweep"):
+                grid_sweep(run, im, run.rng)
             rule = RULE_C05
         else:
-            correspondence(run, drv, im, run.rng, 200 if thorough else 30)
+            with common.guard(run, "estimator kernels (correspondence phase)"):
+                correspondence(run, drv, im, run.rng, 200 if thorough else 30)
             fidelity(run, drv, im, run.rng, 240 if thorough else 24)
             fidelity_grids(run, im, run.rng, 120 if thorough else 16)
-            jacobian_fd(run, im, run.rng, 400 if thorough else 60)
+            with common.guard(run, "Jacobian phase"):
+                jacobian_fd(run, im, run.rng, 400 if thorough else 60)
             rule = RULE_C06
     finally:
         drv.close()
